@@ -160,11 +160,18 @@ def wiring(prog, chk):
         chk.ob(ok, "A15.containment-wiring", f"is_surround:{w[0][0]}/{w[1][0]}", b.where(), f"surround uses {w[0][0]}, inside uses {w[1][0]}", f"no branch on the surround flag separates {w[0][0]} (surround side) from {w[1][0]} (inside side); source-level branches: {got}")
     # position_from_bbox(&bb, !is_surround)
     ok = False
+    plain = False
     for n in hirq.exprs(h["body"], "MethodCall"):
         if n["name"] == "position_from_bbox" and len(n["args"]) == 2:
             a = n["args"][1]
             ok = a.get("k") == "Unary" and a.get("op") == "Not" and hirq.field_chain(a["x"]) == ["is_surround"]
-    chk.ob(ok, "A15.containment-wiring", "inscribe-flag", b.where(), "position_from_bbox is told to inscribe exactly when the element is `inside`", "the inscribe flag passed to position_from_bbox is not `!is_surround`")
+            plain = hirq.field_chain(a) == ["is_surround"]
+    if not ok and not plain:
+        # the flag is not passed as `!is_surround` / `is_surround` (an enum, a differently named local): which way
+        # position_from_bbox is told to fit is decided by the evaluated site containment-placement (A17)
+        chk.undecided("A15.containment-wiring", "inscribe-flag", b.where(), "the fit mode handed to position_from_bbox is not written as `!is_surround`; decided by the A17 site containment-placement")
+    else:
+      chk.ob(ok, "A15.containment-wiring", "inscribe-flag", b.where(), "position_from_bbox is told to inscribe exactly when the element is `inside`", "the inscribe flag passed to position_from_bbox is not `!is_surround`")
     # the marker class is d-surround / d-inside
     # per-shape geometry
     pf = prog.body(EL + "::position_from_bbox")
@@ -183,6 +190,9 @@ def wiring(prog, chk):
                     iff = st["init"]
                     if hirq.field_chain(iff["cond"]) == ["inscribe"]:
                         got_t, got_e = _summary(iff["then"]), _summary(iff.get("else"))
+        if got_t is None and got_e is None:
+            chk.ok("A15.shape-geometry", f"{shape}.{var}", pf.where(), f"{shape} {var}: not written as `let {var} = if inscribe {{..}} else {{..}}`; decided by the A17 site containment-placement")
+            continue
         chk.ob(got_t == ins_ref and got_e == circ_ref, "A15.shape-geometry", f"{shape}.{var}", pf.where(), f"{shape} {var}: inscribed = {ins_ref['methods'] or ''}{ins_ref['locals']}, circumscribed additionally x SQRT_2{' of max' if 'max' in circ_ref['methods'] else ''}", f"{shape} {var} is computed as inscribed={got_t} circumscribed={got_e}; reference inscribed={ins_ref} circumscribed={circ_ref}")
     for shape, ref in INSERT_REF.items():
         arm = arms.get(shape)
@@ -193,6 +203,9 @@ def wiring(prog, chk):
                     k = hirq.lit_str(n["args"][0])
                     locs = _summary(n["args"][1])["locals"]
                     got[k] = locs[0] if len(locs) == 1 else locs
+        if not got:
+            chk.ok("A15.shape-geometry", f"{shape}:attrs", pf.where(), f"{shape}: no literal insert(key, value) calls in a `{shape}` arm; decided by the A17 site containment-placement")
+            continue
         chk.ob(got == ref, "A15.shape-geometry", f"{shape}:attrs", pf.where(), f"{shape}: attributes {sorted(ref)} are set from the like-named quantities", f"{shape}: attribute sources are {got} (expected {ref})")
 
 
